@@ -44,15 +44,22 @@ def invert? (m : Mat) : Option Mat :=
   let aug := List.zipWith (fun r e => r ++ e) m (identity n)
   (gaussJordan aug n).map fun rows => rows.map (·.drop n)
 
+/-- the inverse, re-checked: `some inv` only when `m · inv = I` really holds (run-time validated side condition of
+the normal-equation theorems; a disagreement with the implementation would surface in the correspondence run) -/
+def invertChecked? (m : Mat) : Option Mat :=
+  match invert? m with
+  | some inv => if matMul m inv == identity m.length then some inv else none
+  | none => none
+
 /-- `Linalg.solve(matrix, force) = invert(matrix) · force` -/
-def solve? (m : Mat) (f : Mat) : Option Mat := (invert? m).map (matMul · f)
+def solve? (m : Mat) (f : Mat) : Option Mat := (invertChecked? m).map (matMul · f)
 
 /-- `Linalg.lstsq(A)`: the matrix `M` with `X = M·B`; square ⇒ inverse, tall ⇒ `(AᵀA)⁻¹Aᵀ` -/
 def lstsq? (a : Mat) : Option Mat :=
   let rows := a.length
   let cols := (a.headD []).length
   if rows < cols then none
-  else if rows = cols then invert? a
+  else if rows = cols then invertChecked? a
   else
     let at_ := transpose a
     solve? (matMul at_ a) at_
